@@ -162,6 +162,9 @@ protected:
   transform_impl(internal::intseq<_Idx...>) const;
 };
 
+template <typename _Derived>
+constexpr std::size_t BundleBase<_Derived>::BundleSize;
+
 
 template<typename _Derived>
 typename BundleBase<_Derived>::Transformation
